@@ -143,8 +143,11 @@ func runPlan(c *pbt.Case, p Plan) {
 		if err != nil {
 			c.Failf("C01/setup", "start node %d: %v", i, err)
 		}
+		n.Supervise = true
 		nodes[i], started[i] = n, true
 	}
+	// exits explained by LiteFS's own design (see KWrite); anything beyond is a violation
+	tolerated := map[*cluster.CNode]int{}
 	start(0)
 	if err := cl.WaitPrimary(nodes[0], 10*time.Second); err != nil {
 		c.Failf("C01/setup", "%v", err)
@@ -166,7 +169,7 @@ func runPlan(c *pbt.Case, p Plan) {
 			if n == nil || !n.Up {
 				continue
 			}
-			if ex := n.Exits(); len(ex) > 0 {
+			if ex := n.Exited(); len(ex) > tolerated[n] {
 				c.Failf("C01/store-exit", "step %d (%s): node %s called Store.Exit(%v) on a history without corruption", step, what, n.Name, ex)
 			}
 			for d := range p.DBs {
@@ -183,7 +186,11 @@ func runPlan(c *pbt.Case, p Plan) {
 					time.Sleep(100 * time.Microsecond)
 				}
 				if err == pager.ErrBusy {
-					c.Label("read-busy")
+					if res.HotJournal {
+						c.Label("read-blocked-by-hot-journal")
+					} else {
+						c.Label("read-busy")
+					}
 					continue
 				}
 				if err != nil {
@@ -209,7 +216,7 @@ func runPlan(c *pbt.Case, p Plan) {
 					if n.Store.IsPrimary() {
 						role = "primary"
 					}
-					c.Failf("C01/image-mismatch", "step %d (%s): %s %s at %s of %s: image through the mount differs from the image committed there: %s", step, what, role, n.Name, res.Pos, name, d)
+					c.Failf("C01/image-mismatch", "step %d (%s): %s %s at %s of %s: image through the mount differs from the image committed there: %s (hot journal: %v)", step, what, role, n.Name, res.Pos, name, d, res.HotJournal)
 				}
 				if res.WALMode && res.HaveSHM && !n.Store.IsPrimary() && img.N() > 0 {
 					if res.SHMMxFrame != 0 || res.SHMPageN != img.N() {
@@ -234,9 +241,21 @@ func runPlan(c *pbt.Case, p Plan) {
 				break
 			}
 			name := dbName(st.DB % len(p.DBs))
+			exitsBefore := len(pr.Exited())
 			wr, err := pr.Write(name, st.Tx)
 			if err != nil {
 				c.Failf("C01/harness", "step %d: %v", si, err)
+			}
+			if len(pr.Exited()) > exitsBefore && !pr.Store.IsPrimary() {
+				// By design a WAL commit that fails in its final phase - here because the node
+				// lost its lease while the transaction was in flight - makes LiteFS exit and
+				// recover at the next start (db.go, CommitWAL). That is process death: the
+				// directory frozen at that instant is restarted, as a service manager would.
+				if _, err := cl.Supervise(); err != nil {
+					c.Failf("C01/restart-failed", "step %d: %v", si, err)
+				}
+				tolerated[pr] = len(pr.Exited())
+				c.Label("exit-on-commit-after-lease-loss")
 			}
 			if wr.Err == pager.ErrBusy {
 				c.Label("write-busy")
